@@ -4,8 +4,8 @@ C21 — Native pixel data frames are extracted exactly.
 
 Model: `Dicom.Native.decodeWhole / decodeFrame / frameData` (pixeldata/src/lib.rs, native arms).
 A native image is *well formed* when its stored value has at least the exact number of bytes
-(`Img.exactBytes`; real files pad the value to even length) — for 8/16-bit images exactly that
-number (see finding `padded-odd-length`).
+(`Img.exactBytes`; real files pad the value to even length, and the pad byte is not returned
+as a sample — finding `padded-odd-length-whole-len`, repaired).
 -/
 namespace Dicom.Native
 
@@ -145,31 +145,35 @@ theorem slice_bytes (I : Img) (data : Bytes) (f : Nat) (hf : f < I.frames)
   rw [if_neg (by omega)]
   simp [byteFrame, Nat.mul_comm]
 
-/-- a well-formed native image: 1-bit images have at least the exact
-number of bytes (a trailing pad byte is allowed); 8/16-bit images have exactly
-`frames · frame size` bytes -/
-def WellFormed (I : Img) (data : Bytes) : Prop :=
-  (I.bits = 1 → I.exactBytes ≤ data.length) ∧ (I.bits ≠ 1 → data.length = I.exactBytes)
+/-- a well-formed native image: the stored value has at least the exact number of bytes
+(a trailing pad byte, or anything else beyond the last frame, is allowed) -/
+def WellFormed (I : Img) (data : Bytes) : Prop := I.exactBytes ≤ data.length
+
+theorem decodeWhole_bytes (I : Img) (data : Bytes) (hb : I.bits ≠ 1) (hlen : I.exactBytes ≤ data.length) :
+    decodeWhole I data = some (data.take (I.frameSamples * I.bytesPerSample * I.frames)) := by
+  simp only [Img.exactBytes, hb, if_false] at hlen
+  simp only [decodeWhole, hb, if_false]
+  rw [getRange_some (Nat.zero_le _) hlen]; simp
 
 /-- **whole_len**: the whole-object result has frames × frame-size samples -/
 theorem whole_len (I : Img) (data : Bytes) (wf : WellFormed I data) :
     ∃ w, decodeWhole I data = some w ∧ w.length = I.frameSamples * I.bytesPerSample * I.frames := by
   by_cases hb : I.bits = 1
-  · have hlen := wf.1 hb
-    exact ⟨_, whole_onebit I data hb hlen, by simp [bytesPerSample_one I hb]⟩
-  · refine ⟨data, by simp [decodeWhole, hb], ?_⟩
-    rw [wf.2 hb]; simp [Img.exactBytes, hb]
+  · exact ⟨_, whole_onebit I data hb wf, by simp [bytesPerSample_one I hb]⟩
+  · refine ⟨_, decodeWhole_bytes I data hb wf, ?_⟩
+    have : I.frameSamples * I.bytesPerSample * I.frames ≤ data.length := by
+      simpa [WellFormed, Img.exactBytes, hb] using wf
+    simp [List.length_take, Nat.min_eq_left this]
 
 /-- **frame_exact**: every frame's samples equal the corresponding part of the stored pixel data
 (1-bit: the bits `f·N …`, expanded to 0/255, continuous across frame boundaries) -/
 theorem frame_exact (I : Img) (data : Bytes) (wf : WellFormed I data) (f : Nat) (hf : f < I.frames) :
     decodeFrame I data f = some (expectedFrame I data f) := by
   by_cases hb : I.bits = 1
-  · have hlen := wf.1 hb
-    simp only [expectedFrame, hb, if_true]
-    exact frame_onebit I data f hb hf hlen
+  · simp only [expectedFrame, hb, if_true]
+    exact frame_onebit I data f hb hf wf
   · simp only [expectedFrame, hb, if_false]
-    exact frame_bytes I data f hb hf (by rw [wf.2 hb]; exact Nat.le_refl _)
+    exact frame_bytes I data f hb hf wf
 
 /-- **frame_eq_slice**: decoding a single frame yields the same samples as slicing that frame
 (`frame_data`) from the whole-object result -/
@@ -178,15 +182,27 @@ theorem frame_eq_slice (I : Img) (data : Bytes) (wf : WellFormed I data) (f : Na
     frameData I w f = decodeFrame I data f := by
   rw [frame_exact I data wf f hf]
   by_cases hb : I.bits = 1
-  · have hlen := wf.1 hb
-    rw [whole_onebit I data hb hlen] at hw
+  · rw [whole_onebit I data hb wf] at hw
     simp only [Option.some.injEq] at hw
     rw [← hw, slice_onebit I data f hb hf]
     simp [expectedFrame, hb]
-  · have : w = data := by simp [decodeWhole, hb] at hw; exact hw.symm
-    subst this
+  · have hlen : I.frameSamples * I.bytesPerSample * I.frames ≤ data.length := by
+      simpa [WellFormed, Img.exactBytes, hb] using wf
+    rw [decodeWhole_bytes I data hb wf] at hw
+    simp only [Option.some.injEq] at hw
     simp only [expectedFrame, hb, if_false]
-    exact slice_bytes I w f hf (by rw [wf.2 hb]; simp [Img.exactBytes, hb])
+    rw [← hw, slice_bytes I _ f hf (by simp [List.length_take, Nat.min_eq_left hlen])]
+    -- a frame of the truncated data is the same frame of the data
+    have hmul : I.frameSamples * I.bytesPerSample * f + I.frameSamples * I.bytesPerSample
+        ≤ I.frameSamples * I.bytesPerSample * I.frames := by
+      rw [← Nat.mul_succ]; exact Nat.mul_le_mul_left _ hf
+    simp only [byteFrame, Option.some.injEq]
+    apply List.ext_getElem?
+    intro k
+    by_cases hk : k < I.frameSamples * I.bytesPerSample
+    · rw [List.getElem?_take_of_lt hk, List.getElem?_take_of_lt hk, List.getElem?_drop, List.getElem?_drop,
+        List.getElem?_take_of_lt (by rw [Nat.mul_comm f]; omega)]
+    · rw [List.getElem?_eq_none (by simp; omega), List.getElem?_eq_none (by simp; omega)]
 
 /-- **onebit_sample**: sample `k` of frame `f` of a 1-bit image is bit `(f·N + k) mod 8` of byte
 `(f·N + k) / 8`, expanded to 0 or 255 -/
@@ -212,9 +228,9 @@ example : decodeWhole ⟨1, 1, 3, 3, 2⟩ [0xff, 0x01, 0x02]
 /-- 1-bit with 3 samples per pixel: all six samples of the two pixels are produced -/
 example : decodeWhole ⟨1, 3, 1, 2, 1⟩ [0x2d] = some [255, 0, 255, 255, 0, 255] := by decide
 
-/-- excluded point (finding `padded-odd-length`): an 8-bit 3×3 frame stored in a file carries a
-pad byte, and the whole-object result keeps it -/
-theorem padded_odd_length_too_long :
-    (decodeWhole ⟨8, 1, 3, 3, 1⟩ [1, 2, 3, 4, 5, 6, 7, 8, 9, 0]).map List.length = some 10 := by decide
+/-- finding `padded-odd-length-whole-len`, repaired: an 8-bit 3×3 frame stored in a file carries a
+pad byte, which is not returned -/
+example : decodeWhole ⟨8, 1, 3, 3, 1⟩ [1, 2, 3, 4, 5, 6, 7, 8, 9, 0] = some [1, 2, 3, 4, 5, 6, 7, 8, 9] := by
+  decide
 
 end Dicom.Native
